@@ -139,6 +139,7 @@ ROUND4 = {
     "C09": "Vectorised dense queries before the terminal run, after the stop and after the continuation; event objects surveyed with other attributes first.",
     "C10": "h / -h round trips on explicitly time-dependent separable Hamiltonians.",
     "C11": "Steps handed back by the library's own controller after rejected attempts (requested direction of time, R(z) of the accepted step).",
+    "C12": "The statement's second failure kind - tolerances that cannot be met (finite-time blow-up of one component): exception type and cause, status, accurate prefix, dense cover, then the right-hand side is repaired and integrate() must continue to the end; reset() pristine.",
     "C13": "Systems whose method was assigned several times compared bit-for-bit with a fresh system holding the last method, before and after reset().",
     "C14": "Batches solved before and after other public entry points of the library were used in the same process (purity).",
     "C15": "Restricted-domain systems (log, sqrt) with guesses from which the iteration leaves the domain; a non-finite residual at a claimed root is a violation.",
